@@ -1,13 +1,35 @@
 """C12 — configuration of ./check C12 (PROP) and the MANIFEST claim (CLAIM)."""
+def _judge_drift(drift, run_cases):
+    """steered sessions (c12.conc) on which the real threads and the interleaving model disagree: the log observed on
+    the REAL code is judged by the statements proved in CG.Props.C12conc (driver op c12.judgeconc)"""
+    reqs, keep = [], []
+    for d in drift:
+        f = d[0].split(" ")
+        if f[0] != "c12.conc" or len(f) != 4 or not d[1].startswith("ok:"):
+            continue
+        reqs.append((f"c12.judgeconc {f[1]} {f[2]} {d[1][3:]}", ""))
+        keep.append(d)
+    out = []
+    if reqs:
+        for d, r in zip(keep, run_cases(reqs)):
+            if r[2].startswith("viol:"):
+                out.append((d[0], d[1], d[2], "log-satisfies-C12conc-theorems (judged: " + r[2] + ")", ""))
+    return out
+
+
 PROP = dict(
-    modules=["CG.Props.C12"],
+    modules=["CG.Props.C12", "CG.Props.C12conc"],
+    judge_drift=_judge_drift,
     required_theorems=["C12_handshake_order", "C12_connected_once_before_any_message", "C12_each_message_once_in_order",
                        "C12_deliveries_are_arrivals_in_order", "C12_ping_pong_same_nonce", "C12_state_reflects_announcements",
                        "C12_disconnect_exactly_once", "C12_disconnect_once_on_close_or_garbage", "C12_disconnect_once_on_bad_version",
                        "C12_disconnect_once_on_bad_verack", "C12_nothing_after_remote_disconnect",
                        "C12_send_after_disconnect_is_error", "C12_local_disconnect_linearised", "C12_bytes_lift_to_events",
                        "C12_corrupt_bytes_lift_to_garbage", "C12_model_matches_reference", "C12_reference_defined",
-                       "C12_early_local_disconnect_witness", "C12_tables_wf"],
+                       "C12_early_local_disconnect_witness", "C12_tables_wf",
+                       "C12_conc_disconnected_at_most_once", "C12_conc_event_implies_flag_cleared", "C12_conc_deliveries_in_order",
+                       "C12_conc_nothing_after_remote_disconnect", "C12_conc_at_most_one_late_delivery", "C12_conc_late_delivery_witness",
+                       "C12_conc_send_after_disconnect_is_error", "C12_conc_local_calls_never_block"],
     rule="c12.session / c12.race: one request = one scripted session against the real Peer over 127.0.0.1 (ephemeral port): a "
          "scripted node plays the tokens of the request (well-formed frames of any kind incl. ping/feefilter/sendheaders/"
          "sendcmpct/inv/tx/headers/addr/unknown commands/post-handshake version and verack, multi-kB tx; faults: wrong magic, wrong "
